@@ -5,9 +5,9 @@ import (
 	"bytes"
 	"fmt"
 	"os"
-	"strconv"
 	"runtime"
 	"runtime/pprof"
+	"strconv"
 	"strings"
 	"sync"
 	"time"
